@@ -292,6 +292,23 @@ def flatten_collaborators(tree: ast.Module) -> int:
                                 tg = st.targets[0] if isinstance(st, ast.Assign) and len(st.targets) == 1 else st.target if isinstance(st, ast.AnnAssign) else None
                                 if isinstance(tg, ast.Attribute) and isinstance(tg.value, ast.Name) and tg.value.id == m.args.args[0].arg:
                                     site = (ocls, m, i, st, tg.attr)
+            view = None
+            if site is None:
+                # a stateless view built on every access: `@property def a(self): return C(self)` on the owner
+                for ocls in classes.values():
+                    if ocls is cls:
+                        continue
+                    for m in ocls.body:
+                        if isinstance(m, ast.FunctionDef) and [ast.unparse(d) for d in m.decorator_list] == ["property"] and len(m.args.args) == 1:
+                            b_ = _strip_doc(m.body)
+                            if len(b_) == 1 and isinstance(b_[0], ast.Return) and b_[0].value is call:
+                                view = (ocls, m)
+            if site is None and view is not None:
+                if _flatten_view(tree, classes, cls, mem, call, view):
+                    count += 1
+                    progress = True
+                    break
+                continue
             if site is None:
                 continue
             ocls, oinit, idx, stmt, attr = site
@@ -391,6 +408,70 @@ def flatten_collaborators(tree: ast.Module) -> int:
     if count:
         ast.fix_missing_locations(tree)
     return count
+
+
+def _flatten_view(tree: ast.Module, classes: dict, cls: ast.ClassDef, mem: _Members, call: ast.Call, view) -> bool:
+    ocls, prop = view
+    attr = prop.name
+    owner_self = prop.args.args[0].arg
+    cname = cls.name
+    refs = [n for n in ast.walk(tree) if isinstance(n, ast.Name) and n.id == cname and isinstance(n.ctx, ast.Load)]
+    if [n for n in refs if n is not call.func and not _in_annotation(tree, n)]:
+        return False
+    init = mem.methods["__init__"]
+    bound = _bind_args(init, call)
+    if bound is None:
+        return False
+    amap, _order = bound
+    # the constructor only stores its arguments, and every argument is the owner or an attribute of it
+    owner_fields: dict = {}
+    for st in _strip_doc(init.body):
+        tg = st.targets[0] if isinstance(st, ast.Assign) and len(st.targets) == 1 else st.target if isinstance(st, ast.AnnAssign) else None
+        if not (isinstance(tg, ast.Attribute) and isinstance(tg.value, ast.Name) and tg.value.id == init.args.args[0].arg and isinstance(st.value, ast.Name) and st.value.id in amap):
+            return False
+        a0 = amap[st.value.id]
+        if isinstance(a0, ast.Name) and a0.id == owner_self:
+            owner_fields[tg.attr] = ast.Name(id=owner_self, ctx=ast.Load())
+        elif isinstance(a0, ast.Attribute) and isinstance(a0.value, ast.Name) and a0.value.id == owner_self:
+            owner_fields[tg.attr] = copy.deepcopy(a0)
+        else:
+            return False
+    if set(mem.fields) - set(owner_fields):
+        return False  # state of its own: not a view
+    for m in mem.methods.values():
+        if m is init:
+            continue
+        sn = m.args.args[0].arg if m.args.args else None
+        if any(isinstance(n, ast.Attribute) and isinstance(n.value, ast.Name) and n.value.id == sn and isinstance(n.ctx, ast.Store) for n in ast.walk(m)):
+            return False
+    members = set(mem.alias) | set(mem.getter) | set(mem.methods) - {"__init__"}
+    uses = [n for n in ast.walk(tree) if isinstance(n, ast.Attribute) and n.attr == attr]
+    outer = {id(n.value): n for n in ast.walk(tree) if isinstance(n, ast.Attribute) and isinstance(n.value, ast.Attribute) and n.value.attr == attr}
+    for u in uses:
+        o = outer.get(id(u))
+        if o is None or o.attr not in set(mem.methods) - {"__init__"} or isinstance(u.ctx, ast.Store) or any(u is x for x in ast.walk(cls)):
+            return False
+    omembers = {m.name for m in ocls.body if isinstance(m, (ast.FunctionDef, ast.AsyncFunctionDef))}
+    if {f"{attr}__{m}" for m in mem.methods} & omembers:
+        return False
+    for mname, m in mem.methods.items():
+        if mname == "__init__":
+            continue
+        m2 = copy.deepcopy(m)
+        m2.name = f"{attr}__{mname}"
+        if mname not in mem.static:
+            sn = m2.args.args[0].arg
+            m2.args.args[0].arg = owner_self
+            m2.body = [_SelfRewrite(sn, owner_self, attr, mem, {}, owner_fields).visit(b) for b in m2.body]
+        ocls.body.append(m2)
+    _Access(attr, mem, cls).visit(tree)
+    ocls.body.remove(prop)
+    tree.body.remove(cls)
+    fmap = getattr(tree, "_flatten_map", None) or {}
+    fmap[cname] = (ocls.name, attr)
+    tree._flatten_map = fmap  # type: ignore[attr-defined]
+    ast.fix_missing_locations(tree)
+    return True
 
 
 class _Access(ast.NodeTransformer):
